@@ -198,6 +198,39 @@ def every_small_grid_decomposed_exactly(chunk, replay=None):
                 samples=samples or ["1"], bound="4x4" if tier != "thorough" else "4x5/5x4")
 
 
+def _large_grids():
+    """single-trunk and non-single-trunk grids with more than 256 cells (added after seed C15-10: the cell-count test written with `is`
+    only agrees with `==` for the small integers CPython caches)"""
+    out = []
+    out.append([[True] * 17 for _ in range(16)])                       # a full rectangle, 272 cells
+    out.append([[True] * 13 for _ in range(23)])
+    n = 21
+    plus = [[(7 <= i < 14) or (7 <= j < 14) for j in range(n)] for i in range(n)]          # a plus: trunk in the middle, four branches
+    out.append(plus)
+    sky = [[(i >= 20 - (j * 7) % 13) for j in range(24)] for i in range(22)]              # a skyline: 24 columns of different heights on a base
+    for j in range(24):
+        sky[21][j] = sky[20][j] = True
+    out.append(sky)
+    holed = [[True] * 18 for _ in range(18)]
+    holed[5][5] = holed[12][12] = False                                 # two separate holes: no single-trunk decomposition
+    out.append(holed)
+    return out
+
+
+@contract(P, kind="enum", functions=[T + "strop.Strop.__init__", T + "strop.StropInstance.__init__"], scope="bounded: five grids of 270-530 cells")
+def large_grids(replay=None):
+    failures, evals, nontrivial = [], 0, 0
+    for m in _large_grids():
+        evals += 1
+        bad, info = check_grid(m)
+        nontrivial += 1 if oracle_trunks(m) else 0
+        if bad:
+            failures.append(dict(clause=bad, grid=grid_str(m)[:400], info=info))
+    return dict(evaluations=evals, distinct_nontrivial=nontrivial, exhaustive=False, failures=failures[:3],
+                rule="a full 16x17 and 23x13 rectangle, a 21x21 plus, a 24-column skyline and an 18x18 square with two holes, against the same brute-force "
+                     "oracle and partition check as the small grids", samples=["16x17 full"], bound="5 grids")
+
+
 @contract(P, kind="enum", functions=[T + "strop.Strop._row_interval"], scope="bounded: all boolean rows of length <= 10")
 def row_interval_exact(replay=None):
     failures, evals = [], 0
